@@ -28,7 +28,7 @@ REQUIRED_CLASSES = ['print:ts', 'print:decimal', 'print:near_integer', 'print:cu
                     'parse:repeat', 'parse:decimal', 'parse:omitted', 'parse:ts', 'parse:blanks', 'parse:ring_file',
                     'unknown:reactant', 'unknown:product', 'unknown:ts',
                     'balance:balanced', 'balance:off_by_one', 'balance:off_by_quarter', 'balance:ts_only',
-                    'balance:missing_element', 'formula:repeat', 'formula:omitted_count', 'formula:three_letter']
+                    'balance:missing_element', 'balance:empty_composition', 'formula:repeat', 'formula:omitted_count', 'formula:three_letter']
 REQUIRED_PROBES = ['_parse_reaction_state', '_parse_reaction', '_write_reaction_state', 'Reaction.from_string',
                    'Reaction.to_string', 'Reaction.check_element_balance', 'parse_formula', 'ring.read_reactions']
 ASSUMPTIONS = ['delimiters that occur inside a species name or inside the printed numerals (e.g. "." with '
@@ -192,10 +192,16 @@ def _gen_balance(rng):
     ts = None
     if rng.random() < 0.5:
         ts = [[{'name': 'TS', 'elements': {e: float(t) for e, t in tot.items()}}, 1]]
+    # a species without atoms (a vacant site): legal, contributes nothing; listed first on its side half the time
+    if rng.random() < 0.35:
+        site = {'name': 'VAC', 'elements': {}}
+        for side in (reactants, products):
+            if rng.random() < 0.7:
+                side.insert(0 if rng.random() < 0.6 else len(side), [dict(site), rng.choice([1, 2])])
     mode = rng.choice(['balanced', 'balanced', 'off_by_one', 'off_by_quarter', 'ts_only', 'missing_element'])
     if mode == 'ts_only' and ts is None:
         ts = [[{'name': 'TS', 'elements': {e: float(t) for e, t in tot.items()}}, 1]]
-    tgt = products[0][0] if mode != 'ts_only' else ts[0][0]
+    tgt = [sp_ for sp_, _ in products if sp_['elements']][0] if mode != 'ts_only' else ts[0][0]
     e0 = sorted(tgt['elements'])[0]
     if mode == 'off_by_one':
         tgt['elements'][e0] += 1
@@ -469,6 +475,8 @@ def _unknown_case(spec, ctx):
 def _balance_case(spec, ctx):
     from pmutt.reaction import Reaction
     ctx.cls('balance:' + spec['mode'])
+    if any(not s_['elements'] for s_, _ in spec['reactants'] + spec['products']):
+        ctx.cls('balance:empty_composition')
     ctx.nontrivial(spec['mode'] != 'balanced' or spec['ts'] is not None)
     def mk(side):
         if side is None:
@@ -517,6 +525,16 @@ def _formula_case(spec, ctx):
     got = ctx.call('S5', {'what': 'parse_formula'}, pmutt.parse_formula, formula)
     if got is not core.NOVALUE:
         ctx.check('S5', dict(got) == want, {'what': 'parse_formula'}, formula=formula, got=got, want=want)
+        # history: the caller edits the returned composition; parsing the same formula again must give
+        # the formula's counts (no state shared between calls)
+        if isinstance(got, dict) and got:
+            k0 = sorted(got)[0]
+            got[k0] = got[k0] + 3
+            got['Xx'] = 7
+            again = ctx.call('S5', {'what': 'parse_formula', 'history': 'after_edit'}, pmutt.parse_formula, formula)
+            if again is not core.NOVALUE:
+                ctx.check('S5', dict(again) == want, {'what': 'parse_formula', 'history': 'after_edit'},
+                          formula=formula, got=again, want=want)
 
 
 def run_case(spec, ctx):
